@@ -50,7 +50,7 @@ func (p *Proc) callValue(ec *ectx, funExpr ast.Expr, fv Val, sig *types.Signatur
 	v := p.cbVar(ec, funExpr)
 	if v != nil {
 		name := v.Name()
-		if p.fi.Lit == nil && p.contract != nil && defersParam(p.contract, name) {
+		if p.fi.Lit == nil && p.contract != nil && defersParam(p.contract, name) && !p.asyncCall {
 			p.oblige(st, "defers", fmt.Sprintf("%sdefers[%s#%d]", p.cur().prefix, name, p.callOrdinal(call)), nil, TFalse, p.where(call))
 		}
 		extra := cbArgNames(sig, args)
